@@ -311,3 +311,49 @@ for _c in REG.contracts['data.TexEnv.__str__']:
         _c.hooks.append(_nw_of_str(['\\begin{', 'name', '}', 'A', 'C', '\\end{', 'name', '}']))
     else:
         _c.hooks.append(_nw_of_str(['attr:begin', 'A', 'C', 'attr:end']))
+
+
+# ---------------------------------------------------------------------- mutators of TexExpr (C05, C14, C15): list splices
+_SUPP = "Raises('iscmd(self) and self.name != \"item\"', ensures=[A('unchanged', 'self.contents == old(self.contents)')])"
+for _cls in ['data.TexCmd'] + ENVS + ['data.TexEnv', 'data.TexExpr']:
+    _short = _cls.split('.')[1]
+    REG.add(Contract(
+        'data.TexExpr.insert', case=_short, types={'self': 'UExpr:' + _cls, 'i': 'int', 'exprs': 'elist'},
+        modifies=['self.contents'], props=['C05', 'C15'],
+        requires=[A('index-in-range', '0 <= i and i <= len(self.contents)')],
+        raises={'TypeError': Raises('iscmd(self) and self.name != "item"',
+                                    ensures=[A('unchanged', 'self.contents == old(self.contents)')])},
+        ensures=[P(['C05', 'C15'], 'spliced-in-at-the-index',
+                   'self.contents == concat(old(self.contents)[:i], eseq(exprs), old(self.contents)[i:])')],
+        loops={0: Loop(invariant=[A('prefix-inserted', 'self.contents == concat(old(self.contents)[:i], eseq(exprs)[:_k], '
+                                                       'old(self.contents)[i:])'),
+                                  A('bound', '_k <= len(eseq(exprs))')],
+                       modifies=['self.contents'])}))
+    _targeted = P(['C05', 'C15'], 'removes-the-given-occurrence',
+                  'forall(k, 0, len(old(self.contents)), implies(old(self.contents)[k] == expr, '
+                  'result == k and self.contents == concat(old(self.contents)[:k], old(self.contents)[k + 1:])))')
+    REG.add(Contract(
+        'data.TexExpr.remove', case=_short, types={'self': 'UExpr:' + _cls, 'expr': 'E'}, result='int',
+        modifies=['self.contents'], props=['C05', 'C15'],
+        requires=[A('present', 'occurs(self.contents, expr)')],
+        raises={'TypeError': Raises('iscmd(self) and self.name != "item"',
+                                    ensures=[A('unchanged', 'self.contents == old(self.contents)')])},
+        ensures=[A('removes-first-textual-match',
+                   '0 <= result and result < len(old(self.contents)) and ser(old(self.contents)[result]) == ser(expr) and '
+                   'self.contents == concat(old(self.contents)[:result], old(self.contents)[result + 1:])'),
+                 A('first', 'forall(j, 0, result, ser(old(self.contents)[j]) != ser(expr))'),
+                 _targeted.outside('D9', 'forall(j, 0, len(old(self.contents)), '
+                                         'implies(ser(old(self.contents)[j]) == ser(expr), old(self.contents)[j] == expr))')]))
+
+OCC = Function('occurs', ESeq, E, BoolSort())     # some element of the list is this very expression (identity)
+
+
+@REG.specfun('occurs')
+def _occurs(ctx, xs, e):
+    from pyvc.spec import QBool
+    xs = as_eseq(xs, ctx.st)
+    # occurs(xs, e) implies a textual match exists (used to exclude ValueError): skolem witness
+    w = fresh('occ_at', IntSort())
+    ctx.st.fact(Implies(OCC(xs.z, e.z), And(0 <= w, w < Length(xs.z), xs.z[w] == e.z)))
+    ctx.engine.touch(ctx.st, w)
+    return VB(OCC(xs.z, e.z))
